@@ -652,7 +652,7 @@ Qed.
 
 Lemma sem_step_inv limit m e : sem_inv limit m -> sem_inv limit (sem_step limit m e).
 Proof.
-  intros [Ic Ib Ig Ip Ip0 In]. unfold running in *. destruct e as [t | t p]; simpl.
+  intros [Ic Ib Ig Ip Ip0 In]. unfold running in *. destruct e as [t | t p | t]; simpl; [| | constructor; assumption].
   - destruct (tlookup t (m_threads m)); [constructor; assumption|].
     destruct (sem_admits limit (m_count m)) eqn:A.
     + assert (R : runl ((t, TRunning) :: m_threads m) = runl (m_threads m) + 1) by (rewrite runl_cons; unfold isrun; simpl; lia).
@@ -728,7 +728,7 @@ Proof.
   induction es as [|e es IH]; intros m I; [reflexivity|].
   pose proof (sem_step_inv limit m e I) as I'. specialize (IH _ I').
   destruct I as [Ic _ _ _ _ _]. unfold running in Ic.
-  destruct e as [t | t p]; cbn [sem_outcomes spec_sched sem_step] in IH |- *.
+  destruct e as [t | t p | t]; cbn [sem_outcomes spec_sched sem_step] in IH |- *.
   - destruct (tlookup t (m_threads m)) eqn:T.
     + simpl. exact IH.
     + destruct (sem_admits limit (m_count m)) eqn:A; simpl in IH |- *.
@@ -738,6 +738,7 @@ Proof.
       * rewrite IH, andb_true_r. destruct (sem_admits_false _ _ A) as [L K].
         assert (Q : (0 <? limit) = true) by (apply Z.ltb_lt; exact L). rewrite Q in Ic |- *. simpl. apply Z.leb_le. lia.
   - destruct (tlookup t (m_threads m)) as [[| |]|]; simpl in IH |- *; exact IH.
+  - rewrite Z.eqb_refl. simpl. exact IH.
 Qed.
 
 Lemma sched_spec_lemma : forall limit es, spec_sched limit [] es (sem_outcomes limit sem0 es) = true.
@@ -793,4 +794,11 @@ Example ex_schedule :
   let m := sem_run 2 [Start 1; Start 2; Start 3; End 1 false; Start 4; End 2 true; End 4 false] in
   sem_outcomes 2 sem0 [Start 1; Start 2; Start 3; End 1 false; Start 4; End 2 true; End 4 false] = [1; 1; 2; 0; 1; 0; 0] /\
   m_peak m = 2 /\ m_503 m = 1 /\ m_gathers m = 3 /\ m_dones m = 3 /\ running m = 0.
+Proof. vm_compute. repeat split; reflexivity. Qed.
+
+(* Timeout x MaxRequestsInFlight: the timed-out request keeps its slot until its gather returns *)
+Example ex_schedule_timeout :
+  sem_outcomes 1 sem0 [Start 1; TimedOut 1; Start 2; End 1 false; Start 3; TimedOut 2; End 3 true] = [1; 3; 2; 0; 1; 0; 0] /\
+  m_peak (sem_run 1 [Start 1; TimedOut 1; Start 2; End 1 false; Start 3; TimedOut 2; End 3 true]) = 1 /\
+  m_503 (sem_run 1 [Start 1; TimedOut 1; Start 2; End 1 false; Start 3; TimedOut 2; End 3 true]) = 1.
 Proof. vm_compute. repeat split; reflexivity. Qed.
